@@ -562,8 +562,59 @@ Definition dec_op (s : sx) : op :=
   | 0%Z => ODerive (sx_n (sx_nth s 1)) (dec_step (sx_nth s 2)) (sx_z (sx_nth s 3))
   | _ => OLog (sx_n (sx_nth s 1)) (sx_bool (sx_nth s 2)) (sx_b (sx_nth s 3)) (dec_sflds (sx_nth s 4)) (sx_z (sx_nth s 5))
   end.
+(* The slog front end (exp/zapslog/handler.go) is a translation into the operations above: a Handler is
+   a core, a name and the pending groups; WithAttrs = core.With(namespaces of the pending groups, if one of
+   the attributes is not Skip, then the converted attributes) -- always called, like Fields --;
+   WithGroup = a copy with one more pending group; Handle (behind slog.Logger's Enabled gate) =
+   Check + Write of the record's attributes, again preceded by the pending groups.
+     slog input = (comp (sop ...) 1 #name)
+     sop = (2 parent (attr ...) w) WithAttrs | (3 parent #group w) WithGroup | (4 node hi #msg (attr ...) w) Handle
+   node k of the slog program is node k+1 of the translation (node 0: zap.New(core); node 1: its Named(name)). *)
+Inductive sop :=
+| SAttrs (p : nat) (attrs : list sfld) (w : Z)
+| SGroup (p : nat) (g : bytes) (w : Z)
+| SHandle (n : nat) (hi : bool) (msg : bytes) (attrs : list sfld) (w : Z).
+Definition is_skip (s : sfld) : bool := match s with SF FSkip => true | _ => false end.
+(* the loop shared by WithAttrs and Handle *)
+Fixpoint add_attrs (gs : list bytes) (added : bool) (attrs : list sfld) : list sfld * bool :=
+  match attrs with
+  | [] => ([], added)
+  | f :: r =>
+      let now := negb added && negb (is_nil gs) && negb (is_skip f) in
+      let '(rest, a) := add_attrs gs (added || now) r in
+      ((if now then map (fun g => SF (FNamespace g)) gs else []) ++ f :: rest, a)
+  end.
+Fixpoint scompile (gss : list (list bytes)) (l : list sop) : list op :=
+  match l with
+  | [] => []
+  | SAttrs p attrs w :: r =>
+      match nth_error gss p with
+      | Some gs => let '(fs, added) := add_attrs gs false attrs in
+                   ODerive (S p) (SFields fs) w :: scompile (gss ++ [if added then [] else gs]) r
+      | None => scompile gss r
+      end
+  | SGroup p g w :: r =>
+      match nth_error gss p with
+      | Some gs => ODerive (S p) SSugar w :: scompile (gss ++ [gs ++ [g]]) r
+      | None => scompile gss r
+      end
+  | SHandle n hi msg attrs w :: r =>
+      match nth_error gss n with
+      | Some gs => OLog (S n) hi msg (fst (add_attrs gs false attrs)) w :: scompile gss r
+      | None => scompile gss r
+      end
+  end.
+Definition dec_sop (s : sx) : sop :=
+  match sx_z (sx_nth s 0) with
+  | 2%Z => SAttrs (sx_n (sx_nth s 1)) (dec_sflds (sx_nth s 2)) (sx_z (sx_nth s 3))
+  | 3%Z => SGroup (sx_n (sx_nth s 1)) (sx_b (sx_nth s 2)) (sx_z (sx_nth s 3))
+  | _ => SHandle (sx_n (sx_nth s 1)) (sx_bool (sx_nth s 2)) (sx_b (sx_nth s 3)) (dec_sflds (sx_nth s 4)) (sx_z (sx_nth s 5))
+  end.
 Definition dec_case (i : sx) : comp * list op :=
-  (dec_comp (sx_size (sx_nth i 0)) (sx_nth i 0), map dec_op (sx_l (sx_nth i 1))).
+  (dec_comp (sx_size (sx_nth i 0)) (sx_nth i 0),
+   if sx_bool (sx_nth i 2)
+   then ODerive 0 (SNamed (sx_b (sx_nth i 3))) 0 :: scompile [[]] (map dec_sop (sx_l (sx_nth i 1)))
+   else map dec_op (sx_l (sx_nth i 1))).
 
 Definition is_out (k : nat) (e : ev) : bool := match e with EOut k' _ => Nat.eqb k' k | _ => false end.
 Definition enc_ev (e : ev) : sx :=
